@@ -55,14 +55,51 @@ def run(tier):
     # ---- 2. deviations of the catalogue on the real protocols
     # ---- 3. a presigner whose delta / chi / sigma contribution is inconsistent while its proofs pass (state-level
     #         cheater through MultiHandler), offline / full / online variants, every position of the cheater
-    cheats = []
-    combos = [("offline", "delta", "b"), ("offline", "chi", "a"), ("full", "gamma", "c"), ("full", "x-chi", "a"), ("online", "k", "c")]
+    #         PresignAlg.tla is the algebra of presigning and of its identification rounds over a small field: TLC checks
+    #         on every input that the recomputation formulas of abort1 / abort2 single out exactly the deviating party and
+    #         at which stage each deviation is caught, and emits the deviation catalogue that is run on the real protocol
+    kinds = {"delta", "gamma", "chi", "x-chi", "sig-k", "sig-chi"}
+    invs = ["TypeOK", "HonestCompletes", "OutputValid", "Detected", "BlameExact", "StageAsPredicted", "FormulasExact"]
+    fields = [({"a", "b", "c"}, 3, {1, 2}, {1}, {1, 2}), ({"a", "b"}, 5, {1}, {2}, {1, 2})]
     if not quick:
-        combos = [(v, r, b) for v in ("offline", "full") for r in ("delta", "gamma", "x-chi", "chi") for b in ("a", "b", "c")] + \
-                 [("online", r, b) for r in ("k", "chi") for b in ("a", "b", "c")]
-    for v, rule, byz in combos:
+        fields += [({"a", "b", "c"}, 3, {1}, {0, 2}, {1}), ({"a", "b"}, 5, {1, 3}, {0, 1}, {1, 2, 3, 4}), ({"a", "b"}, 7, {1}, {3}, {1, 6})]
+    catalogue = None
+    for parties, q, msgs, betas, offs in fields:
+        for online in (True, False):
+            consts = {"P": parties, "Q": q, "Msgs": msgs, "BetaVals": betas, "Offsets": offs, "Kinds": kinds, "Online": online, "SwapIndex": False}
+            r = vlib.tlc(wd, "PresignAlg", vlib.cfg(consts, init="Init", next_="Next", invariants=invs), timeout=3000)
+            vlib.tlc_must_pass(r, "PresignAlg.tla n=%d Q=%d" % (len(parties), q))
+            states += r["distinct"]; trans += r["generated"]
+            if len(parties) == 3 and catalogue is None:
+                catalogue = vlib.printed(r["out"], "CAT")[0]
+        rep.notes.append("PresignAlg.tla, %d signers over Z_%d (offline and online): identification formulas exact, every deviation (delta / gamma / chi / x-chi / stored k / stored chi) is caught at the predicted stage and attributed to exactly the deviating signer" % (len(parties), q))
+    # the identification rounds AS CODED (proofs checked against the wrong ciphertext slot): TLC must show an honest signer
+    # blamed - the model-level account of the known finding - while the stage prediction still holds
+    consts = {"P": {"a", "b", "c"}, "Q": 3, "Msgs": {1}, "BetaVals": {1}, "Offsets": {1}, "Kinds": kinds, "Online": False, "SwapIndex": True}
+    r = vlib.tlc(wd, "PresignAlg", vlib.cfg(consts, init="Init", next_="Next", invariants=["StageAsPredicted", "BlameExact"]), timeout=3000)
+    if r["violated"] != "BlameExact":
+        raise vlib.Inconclusive("PresignAlg.tla with SwapIndex=TRUE should violate BlameExact (got %s)" % r["violated"])
+    rep.notes.append("PresignAlg.tla with SwapIndex=TRUE (abort1 / abort2 as coded): BlameExact violated at depth %d, as observed on the real protocol (known finding)" % r["depth"])
+    if not catalogue:
+        raise vlib.Inconclusive("PresignAlg.tla did not emit its deviation catalogue")
+    cheats = []
+    hrule = {"sig-k": "k", "sig-chi": "chi"}
+    combos = []
+    for c in sorted(catalogue, key=lambda c: (c["rule"], c["byz"])):
+        if c["rule"] in hrule:
+            combos.append(("online", hrule[c["rule"]], c["byz"], c))
+        else:
+            combos += [("offline", c["rule"], c["byz"], c), ("full", c["rule"], c["byz"], c)]
+    if quick:
+        pick = [("offline", "delta", "b"), ("offline", "chi", "a"), ("full", "gamma", "c"), ("full", "x-chi", "a"), ("online", "k", "c")]
+        rot = vlib.seed() % 3
+        ids = ["a", "b", "c"]
+        pick = [(v, ru, ids[(ids.index(b) + rot) % 3]) for v, ru, b in pick]
+        combos = [x for x in combos if x[:3] in pick]
+    for v, rule, byz, c in combos:
         cheats.append({"kind": "presigncheat", "proto": "cmp-presign", "n": 3, "t": 2, "byz": byz, "variant": v, "rule": rule,
-                       "sched": vlib.seed() * 7 + len(cheats)})
+                       "stage": c["stage"], "coded": c["coded"], "sched": vlib.seed() * 7 + len(cheats)})
+    rep.notes.append("presign deviation catalogue from PresignAlg.tla: %d cases, %d run on the real protocol" % (len(catalogue), len(cheats)))
     st = adv.run_family(rep, wd, plan(quick), PROP, vlib.seed(), {"C04"}, shards=14, extra_scen=cheats)
     states += st["states"]; trans += st["transitions"]
     rep.cov.update({"distinct_nontrivial": st["distinct"], "states": states, "transitions": trans,
